@@ -80,6 +80,7 @@ class Gen:
       "eq_many": p(0.15),  # more equalities than coordinates (size relations such as neq > nq)
       "pile": p(0.08),  # a cluster of small free bodies: many broadphase candidates, many contacts, many trees
       "tiny": p(0.15),  # one shallow tree: nq, nv small relative to nu, na, neq, nsensordata, nuserdata
+      "eq_clique": p(0.06),  # five trees pairwise joined by connect equalities: a dense tree-tree graph for island discovery
       "cameras": p(0.25),  # body-mounted cameras and lights in every tracking mode (their frames are outputs of kinematics)
       "welded_child": p(0.25),  # some child bodies have no joint of their own (rigidly attached to their parent: bodies != joints != dofs)
     }
@@ -331,6 +332,17 @@ class Gen:
         else:
           eq += f'    <connect name="eqm{k}" body1="{self.ch(self.bodies)[0]}" anchor="{_f([self.u(-0.1, 0.1), self.u(-0.1, 0.1), self.u(-0.1, 0.1)])}"{active()}/>\n'
         neq += 1
+
+    if ft.get("eq_clique"):
+      roots = {}
+      for name, tree in self.bodies:
+        roots.setdefault(tree, name)
+      rs = list(roots.values())[:5]
+      if len(rs) >= 4:
+        for i in range(len(rs)):
+          for j in range(i + 1, len(rs)):
+            eq += f'    <connect name="eqk{i}_{j}" body1="{rs[i]}" body2="{rs[j]}" anchor="0 0 0" solref="0.05 1"/>\n'
+            neq += 1
 
     # contact pairs / excludes
     con = ""
